@@ -630,12 +630,86 @@ def run_largest(total):
     return viol
 
 
+def run_bus_signals():
+    """signals the application running the bus emits through the Bus
+    object's own sendSignal / broadcastSignal (member, signature, body,
+    path=, interface=): they reach exactly the connections holding a
+    matching rule, with the path and interface asked for"""
+    viol = []
+    try:
+        w = fakes.BusWorld()
+        peers = [w.connect() for _ in range(4)]
+        rules = ["type='signal',path='/com/ex/Thing'",
+                 "type='signal',path='/org/freedesktop/DBus'",
+                 "type='signal',interface='com.ex.I'",
+                 "type='signal',interface='org.freedesktop.DBus',"
+                 "member='Tick'"]
+        for p_, r in zip(peers, rules):
+            s = p_.call_bus('AddMatch', 's', [r])
+            p_.received()
+        cases = [
+            (dict(path='/com/ex/Thing', interface='com.ex.I'), {0, 2},
+             '/com/ex/Thing', 'com.ex.I'),
+            (dict(path='/com/ex/Other', interface='com.ex.I'), {2},
+             '/com/ex/Other', 'com.ex.I'),
+            (dict(path='/com/ex/Thing'), {0, 3}, '/com/ex/Thing',
+             'org.freedesktop.DBus'),
+            (dict(interface='com.ex.I'), {1, 2}, '/org/freedesktop/DBus',
+             'com.ex.I'),
+            (dict(), {1, 3}, '/org/freedesktop/DBus',
+             'org.freedesktop.DBus'),
+        ]
+        for k, (kw, want, wpath, wiface) in enumerate(cases):
+            w.bus.broadcastSignal('Tick', 'u', [k], **kw)
+            got = {}
+            for i, p_ in enumerate(peers):
+                ms = [m for m in p_.received() if m['type'] == 4 and
+                      m['fields'].get('member') == 'Tick']
+                got[i] = [(m['fields'].get('path'),
+                           m['fields'].get('interface'), m['body'])
+                          for m in ms]
+            ok = all((len(got[i]) >= 1) == (i in want) for i in got) and \
+                all(g == (wpath, wiface, [k]) for i in got for g in got[i])
+            if not ok:
+                viol.append(('bus-signal/broadcast',
+                             'Bus.broadcastSignal("Tick", "u", [%d], **%r) '
+                             'with the rules %r: arrived %r, expected at '
+                             'the holders %r as (%r, %r)'
+                             % (k, kw, rules, got, sorted(want), wpath,
+                                wiface)))
+                break
+        # sendSignal: unicast to one connection
+        for k, kw in enumerate((dict(path='/com/ex/Thing',
+                                     interface='com.ex.I'), dict())):
+            w.bus.sendSignal(peers[1].proto, 'Direct', 's', ['x%d' % k],
+                             **kw)
+            got = {i: [(m['fields'].get('path'),
+                        m['fields'].get('interface'), m['body'])
+                       for m in p_.received() if m['type'] == 4 and
+                       m['fields'].get('member') == 'Direct']
+                   for i, p_ in enumerate(peers)}
+            wp = kw.get('path', '/org/freedesktop/DBus')
+            wi = kw.get('interface', 'org.freedesktop.DBus')
+            if got != {0: [], 1: [(wp, wi, ['x%d' % k])], 2: [], 3: []}:
+                viol.append(('bus-signal/send',
+                             'Bus.sendSignal(<connection 1>, "Direct", ..., '
+                             '**%r): arrived %r' % (kw, got)))
+    except Exception as e:
+        viol.append(('bus-signal/raises-%s' % type(e).__name__, '%r' % (e,)))
+    return viol
+
+
 def _task_long_lived(gap):
     res = core.Result()
     res.count('states')
-    res.count('transitions', 6 if isinstance(gap, tuple) else gap + 6)
+    res.count('transitions', 6 if not isinstance(gap, int) else gap + 6)
     res.count('evaluations', 4)
     res.count('nontrivial')
+    if gap == 'bus-signals':
+        for t, w in run_bus_signals():
+            res.violation('%s/%s' % (PROP, t), w, {'part': 'bus-signals'},
+                          size=1)
+        return res
     if isinstance(gap, tuple):
         for t, w in run_largest(gap[1]):
             res.violation('%s/%s' % (PROP, t), w,
@@ -787,7 +861,8 @@ def run(ctx):
     from mcx import scale
     ctx.map(_task_long_lived, scale.LADDER_SMALL[3:] + scale.LADDER_WORD
             + [('largest', 2 ** 27), ('largest', 2 ** 27 - 8),
-               ('largest', 2 ** 16), ('largest', 2 ** 16 + 8)])
+               ('largest', 2 ** 16), ('largest', 2 ** 16 + 8),
+               'bus-signals'])
     ctx.bounds = {'clients': 3}
 
 
@@ -795,6 +870,8 @@ def replay(data):
     if data.get('part') == 'long-lived':
         return [('%s/%s' % (PROP, t), w) for t, w in
                 run_long_lived(*data['args'])]
+    if data.get('part') == 'bus-signals':
+        return [('%s/%s' % (PROP, t), w) for t, w in run_bus_signals()]
     if data.get('part') == 'largest':
         return [('%s/%s' % (PROP, t), w) for t, w in
                 run_largest(*data['args'])]
